@@ -35,6 +35,13 @@ def Bt(v):
 
 # ================================================================ invariant
 def inv_terms(fsm, read=None, fired=None):
+    return _inv_terms(fsm, read, fired, CONF_REF[0])
+
+
+CONF_REF = [None]     # the CONF heap object of the running program (set by props.common.make_prog)
+
+
+def _inv_terms(fsm, read, fired, conf):
     """Inv as a list of (name, z3 bool) over the CURRENT heap (or through `read(cont, key)`).
     fired=<timer>: the state at the start of that timer's callback — Inv held with the timer active,
     Twisted marked the DelayedCall as called (so it now reads inactive) and invoked the callback."""
@@ -54,6 +61,7 @@ def inv_terms(fsm, read=None, fired=None):
     P = rd(fsm, 'protocol')
     out = []
     out.append(('state-range', z3.Or([st == k for k in (1, 2, 4, 5, 6)])))
+    out.append(('I0-running-implies-not-stopped', z3.Implies(st != ST_IDLE, Bt(rd(fsm, 'allow_automatic_start')))))
     for s in tm:
         out.append(('timer-rep-%s' % s, z3.Implies(act[s], stat[s])))
     out.append(('no-delay-open', z3.Not(act['dopen'])))
@@ -75,11 +83,20 @@ def inv_terms(fsm, read=None, fired=None):
     out.append(('I4b-no-timers-when-hold-time-zero',
                 z3.Implies(z3.And(oc_est, H == 0), z3.And(z3.Not(act['hold']), z3.Not(act['ka'])))))
     out.append(('hold-time-range', z3.And(H >= 0, H <= 65535)))
+    out.append(('I4d-negotiated-hold-time-legal', z3.Implies(oc_est, z3.Or(H == 0, H >= 3))))
+    if conf is not None:
+        out.append(('NoPoison-offered-hold-time-is-configured',
+                    z3.Implies(st == ST_OPENSENT, H == T(conf.f['time'].f['hold_time']))))
     return out + extra
 
 
-def Inv(fsm, read=None, fired=None):
-    return z3.And([t for _, t in inv_terms(fsm, read, fired)])
+TIMING_CLAUSES = ('I3-opensent-hold', 'I4a-timers-running', 'I4c-keepalive-interval',
+                  'I4b-no-timers-when-hold-time-zero', 'I4d-negotiated-hold-time-legal',
+                  'NoPoison-offered-hold-time-is-configured')
+
+
+def Inv(fsm, read=None, fired=None, structural_only=False):
+    return z3.And([t for n, t in inv_terms(fsm, read, fired) if not (structural_only and n in TIMING_CLAUSES)])
 
 
 def ensure_inv(s, fsm):
@@ -101,9 +118,17 @@ def stat_inc(s, P, which, key):
     s.set(d, key, s.add(s.get(d, key), 1))
 
 
+def data_len(data):
+    return z3.IntVal(len(data)) if isinstance(data, (bytes, bytearray)) else data.len
+
+
 def p_send_notification(s, P, error, sub_error, data=b''):
     s.c.requires(z3.And(T(error) >= 0, T(error) <= 255, T(sub_error) >= 0, T(sub_error) <= 255), 'code/subcode octets')
     stat_inc(s, P, 'msg_sent_stat', 'Notifications')               # C18: one message, one count
+    if isinstance(data, Any):
+        s.eff('Write', s.get(P, 'transport'), wire.notification_any_data(error, sub_error))
+        return
+    s.c.requires(data_len(data) + 21 <= wire.MAX_LEN, 'NOTIFICATION fits in a BGP message')
     s.eff('Write', s.get(P, 'transport'), wire.notification(error, sub_error, data))
 
 
@@ -184,13 +209,15 @@ def state_in(s, fsm, states):
     return s.in_(s.get(fsm, 'state'), states)
 
 
-def prof(fn, fired=None):
+def prof(fn, fired=None, structural_only=False):
     """FSM event spec = requires Inv; profile row; ensures Inv; only visible effects are compared"""
     if isinstance(fn, str):
+        if fn == 'structural':
+            return lambda f: prof(f, structural_only=True)
         return lambda f: prof(f, fired=fn)
 
     def prog(s, fsm, *args):
-        s.c.requires(Inv(fsm, fired=fired), 'Inv')
+        s.c.requires(Inv(fsm, fired=fired, structural_only=structural_only), 'Inv')
         profile_dont_cares(s, fsm)
         r = fn(s, fsm, *args)
         ensure_inv(s, fsm)
@@ -203,6 +230,7 @@ def prof(fn, fired=None):
         sp.effects = visible(sp.effects)
         sp.effect_filter = visible
         return sp
+    spec2.row = fn
     return spec2
 
 
@@ -266,6 +294,10 @@ def ev_connection_made(s, fsm):
     if state_in(s, fsm, (ST_CONNECT,)):
         t_cancel(s, timer(s, fsm, 'cr'))
         t_cancel(s, timer(s, fsm, 'ihold'))
+        # C02/C05 NoPoison: the new session is offered the configured parameters
+        conf_time = s.it.m.conf.f['time'].f
+        s.set(fsm, 'hold_time', conf_time['hold_time'])
+        s.set(fsm, 'keep_alive_time', conf_time['keep_alive_time'])
         send_open_abstract(s, s.get(fsm, 'protocol'))
         t_reset(s, timer(s, fsm, 'hold'), LARGE_HOLD)
         set_state(s, fsm, ST_OPENSENT)
@@ -316,13 +348,17 @@ def restart_after_close(s, fsm):
         t_reset(s, timer(s, fsm, 'ihold'), s.get(fsm, 'idle_hold_time'))
 
 
-@prof
+@prof('structural')
 def ev_open_received(s, fsm):
-    """Event 19 (valid OPEN; hold time already negotiated into fsm.hold_time by the caller)"""
+    """Event 19 (valid OPEN; the caller has just negotiated hold time and keepalive time into the FSM, so the
+    timing clauses of Inv are re-established here, not required)"""
     KA = T(s.get(fsm, 'keep_alive_time'))
+    Hn = T(s.get(fsm, 'hold_time'))
     s.c.requires(z3.Implies(T(s.get(fsm, 'state')) == ST_OPENSENT,
-                            (KA if KA.sort().kind() == z3.Z3_REAL_SORT else z3.ToReal(KA)) * 3 ==
-                            z3.ToReal(T(s.get(fsm, 'hold_time')))), 'keepalive time negotiated')
+                            z3.And((KA if KA.sort().kind() == z3.Z3_REAL_SORT else z3.ToReal(KA)) * 3 == z3.ToReal(Hn),
+                                   z3.Or(Hn == 0, Hn >= 3), Bt(s.get(timer(s, fsm, 'hold'), '_active')))),
+                 'hold time / keepalive time negotiated and legal')
+    s.c.requires(z3.Implies(T(s.get(fsm, 'state')) == ST_OPENCONFIRM, Inv(fsm)), 'Inv (OpenConfirm: nothing may have changed)')
     if state_in(s, fsm, (ST_OPENSENT,)):
         t_cancel(s, timer(s, fsm, 'cr'))
         p_send_keepalive(s, s.get(fsm, 'protocol'))
@@ -436,7 +472,6 @@ FSM_EVENT_SPECS = {
     'connect_retry_time_event': ev_connect_retry,
     'hold_time_event': ev_hold_timer,
     'keep_alive_time_event': ev_keepalive_timer,
-    'delay_open_time_event': ev_delay_open_timer,
     'idle_hold_time_event': ev_idle_hold_timer,
     'connection_made': ev_connection_made,
     'connection_failed': ev_connection_failed,
@@ -456,3 +491,23 @@ HELPER_SPECS = {
     FSM + '_close_connection': wrap(p_close_connection),
     FSM + '_error_close': wrap(p_error_close),
 }
+
+
+def lemma_delay_open_dead(prog):
+    """DelayOpen is off: under Inv the delay-open timer is never active, so the entry precondition of
+    delay_open_time_event (only ever called by that timer: Inv with the timer just fired) is unsatisfiable."""
+    from pyvc.paths import Path
+    from pyvc.values import CUR
+    from pyvc.interp import Interp
+    out = []
+    for wp in (True, False):
+        p = Path([], [])
+        CUR.path = p
+        try:
+            it = Interp(prog)
+            S = Session(it, with_protocol=wp)
+            out.append(('delay_open_time_event-unreachable-%s' % ('P' if wp else 'noP'), list(p.facts),
+                        z3.Not(Inv(S.fsm, fired='dopen'))))
+        finally:
+            CUR.path = None
+    return out
